@@ -642,14 +642,40 @@ def gen_exprs(rng, quick):
     return E
 
 
+def _has_confusable_frozenset(text):
+    """the expression contains frozenset(<tuple/list/set display of constants>) with two elements that are
+    == but not the same constant (1/1.0/True, 0/0.0/-0.0/False ...): the frozenset_order_merged family"""
+    import ast
+    try:
+        tree = ast.parse(text, mode="eval")
+    except SyntaxError:
+        return False
+    for n in ast.walk(tree):
+        if isinstance(n, ast.Call) and getattr(n.func, "id", None) == "frozenset" and len(n.args) == 1 \
+                and isinstance(n.args[0], (ast.Tuple, ast.List, ast.Set)):
+            try:
+                vals = [eval(compile(ast.Expression(e), "<e>", "eval"), {}, {}) for e in n.args[0].elts]
+            except Exception:
+                continue
+            for i in range(len(vals)):
+                for j in range(i + 1, len(vals)):
+                    try:
+                        same = vals[i] == vals[j]
+                    except Exception:
+                        same = False
+                    if same and (type(vals[i]), repr(vals[i])) != (type(vals[j]), repr(vals[j])):
+                        return True
+    return False
+
+
 def classify_expr(stratum, text, got, exp):
-    """finding class from the input expression (the observed value only separates crash from wrong value)"""
-    if stratum.startswith(("tuple", "slice", "container", "frozenset")):
-        zero_pair = re.search(r"-0\.0", text) or re.search(r"(?<![\d.])0\.0", text)
-        if stratum.startswith("frozenset"):
+    """finding class from the input expression (the observed value only separates a wrong zero sign from
+    other differences)"""
+    if stratum.startswith(("tuple", "slice", "container", "frozenset", "replay")):
+        if _has_confusable_frozenset(text):
             return "frozenset_order_merged"
-        if zero_pair and json.dumps(got).replace(struct.pack("<d", -0.0).hex(), struct.pack("<d", 0.0).hex()) == \
-                json.dumps(exp).replace(struct.pack("<d", -0.0).hex(), struct.pack("<d", 0.0).hex()):
+        nz, pz = struct.pack("<d", -0.0).hex(), struct.pack("<d", 0.0).hex()
+        if re.search(r"(?<![\d.])0\.0", text) and json.dumps(got).replace(nz, pz) == json.dumps(exp).replace(nz, pz):
             return "float_zero_sign_merged"
         return "container_constant_wrong"
     if stratum.startswith("lit"):
